@@ -339,6 +339,10 @@ def run(ctx):
             r.violate(key, f"{f.key} enters namespace {nsarg} for a start tag without testing its self-closing flag: after a self-closing tag the simulator stays in that namespace, so text-mode switches (<textarea>, <style>, <script>…), CDATA permission and namespace_uri() differ from a WHATWG parser until a matching end tag happens to follow", f.loc())
 
     rule_foreign_feedback_table(ctx, idx, T)
+    # ------------------------------------------------------------------ R03.9 (shared with C06 R06.1)
+    # tokenization must not depend on which of the two state machines saw the tree-builder feedback: the bookmark carries it
+    from .c06 import rule_bookmark
+    rule_bookmark(ctx, mir, rid="R03.9")
 
     ctx.not_decided += ["tree-builder simulation beyond the tables (arbitrary mis-nesting in foreign content)", "hash collisions of LocalNameHash", "full token-boundary equivalence with the WHATWG tokenizer is rule R03.1 (product exploration), reported separately when present"]
     return ("Automaton-level dataflow of the text type over all %d states (every literal transition into a text state and every tag emission), "
